@@ -500,5 +500,5 @@ def _finalizer_dask_op(
     if write is None:
         return _root
 
-    _, rr = _root.flush(write, leftPartId=1, finalise=True)
+    _, rr = _root.flush(write, leftPartId=write.min_part, finalise=True)
     return rr
